@@ -93,6 +93,52 @@ def sequence(sit: int, e1: int, e2: int, e3: int, n: int) -> bool:
     return V(True)
 
 
+ALIASES = ["a.example.", "a.example:1965", "A.Example", "a.example.:1965"]
+
+
+def _op_on(c, entry, authority):
+    if entry == 0:
+        return c.get("gemini://%s/secret-path?tok=1" % authority, follow_redirects=False)
+    if entry == 1:
+        return c.get("gemini://%s/other" % authority, follow_redirects=True)
+    if entry == 2:
+        return c.upload("gemini://%s/up" % authority, b"CONTENT", token="T0")
+    return c.delete("gemini://%s/up" % authority, token="T0")
+
+
+def alias_spelling(ai: int, e1: int, e2: int, same: bool) -> bool:
+    """
+    pre: 0 <= ai < len(ALIASES) and 0 <= e1 <= 3 and 0 <= e2 <= 3
+    post: _
+    """
+    # the host is pinned to certificate 0; an impostor presenting certificate 1 is first reached under another spelling
+    # of the authority (trailing dot, explicit default port, upper case), then under the canonical one.  Whatever the
+    # first exchange did (refused, or pinned the other spelling as a host of its own), it must not have replaced the
+    # canonical pin, and the canonical request must not leave the client.
+    from vf.clientrun import FPS
+    env = Env(True)
+    env.pin("a.example", 1965, 0)
+    for key in (("a.example", 1965), ("a.example.", 1965)):
+        env.cert_for[key] = 0 if same else 1
+    c = env.client
+    env.run(_op_on(c, e1, ALIASES[ai]))
+    for t in env.conns:
+        if t.rx_before_verify != 0:
+            return V(False)
+    if env.pins().get(("a.example", 1965)) != FPS[0]:
+        return V(False)
+    n1 = len(env.conns)
+    res, exc = env.run(_op_on(c, e2, "a.example"))
+    if len(env.conns) != n1 + 1:
+        return V(False)
+    t = env.conns[-1]
+    if t.rx_before_verify != 0:
+        return V(False)
+    if same:
+        return V(res is not None and exc is None)
+    return V(res is None and exc is not None and t.total_rx() == 0 and env.pins().get(("a.example", 1965)) == FPS[0])
+
+
 def redirect_second_hop(sit2: int, q: int) -> bool:
     """
     pre: 0 <= sit2 <= 6 and is_qchar(q)
@@ -130,6 +176,10 @@ META = {
 FN = ["GeminiClientProtocol.connection_made", "TitanClientProtocol.connection_made", "GeminiClient._get_single", "upload",
       "delete", "_get_with_redirects", "TOFUDatabase.verify", "trust"]
 OBLIGATIONS = [
+    Ob("alias_spelling", alias_spelling, quick=300, thorough=600,
+       symbolic="4 other spellings of a pinned authority (trailing dot, explicit default port, upper case, both), entry points of the "
+                "two operations (4 x 4), impostor or genuine certificate",
+       functions=FN, stubs=["scripted peer", "ModelSQL", "MiniLoop"]),
     Ob("order", order, quick=400, thorough=1200,
        symbolic="pin situation (unpinned / same / changed / unreadable / changed+expired / unpinned+expired / pinned not-yet-valid), entry point (get, get with query, upload with token, delete), "
                 "query character, token character (any query-safe ASCII code point), upload size class (1 B, 70 kB, 10 MiB)",
